@@ -112,7 +112,12 @@ func TestVerifBoundedMacros(t *testing.T) {
 		{"in-loop", "for i = 0:2 { println(", ") }\n"},
 		{"twice", "println(", " , @@)\n"}, // @@ replaced by a second, different use of the same macro
 		{"in-expression", "println(1 + ", " * 2)\n"},
+		{"twice-same-shape", "println(", " , @S)\n"}, // @S: a second use whose arguments have the same outermost operators but different operands
+		{"thrice", "println(", " , @S, @@)\n"},
 	}
+	// an argument of the same shape (same outermost token) with different operands
+	sameShape := map[string]string{"1": "2", "x": "x", "1 + 2": "3 + 4", "x - 1": "7 - x", "2 * 3": "x * 5", "f(2)": "g(7)", "x == 1 || x > 2": "x > 5 || x < 0", "-x": "-(x + 1)",
+		"g(x) + 1": "2 + g(1)", "[1,2][0]": "[7,8][1]", "error(\"boom\")": "error(\"bang\")", "catch(error(\"c\")).err": "catch(error(\"d\")).err"}
 	evals, fails := 0, 0
 	fail := func(msg string) {
 		fails++
@@ -130,12 +135,17 @@ func TestVerifBoundedMacros(t *testing.T) {
 				args[i] = argsPool[(rot+i*3)%len(argsPool)]
 				args2[i] = argsPool[(rot+i*3+5)%len(argsPool)]
 			}
+			args3 := make([]string, n)
+			for i := range args {
+				args3[i] = sameShape[args[i]]
+			}
 			call := "m(" + strings.Join(args, ", ") + ")"
 			call2 := "m(" + strings.Join(args2, ", ") + ")"
-			sub, sub2 := tpl.substitute(args), tpl.substitute(args2)
+			call3 := "m(" + strings.Join(args3, ", ") + ")"
+			sub, sub2, sub3 := tpl.substitute(args), tpl.substitute(args2), tpl.substitute(args3)
 			for _, cx := range contexts {
-				withMacro := prelude + tpl.macroSrc("m") + cx.before + call + strings.ReplaceAll(cx.after, "@@", call2)
-				byHand := prelude + cx.before + sub + strings.ReplaceAll(cx.after, "@@", sub2)
+				withMacro := prelude + tpl.macroSrc("m") + cx.before + call + strings.ReplaceAll(strings.ReplaceAll(cx.after, "@@", call2), "@S", call3)
+				byHand := prelude + cx.before + sub + strings.ReplaceAll(strings.ReplaceAll(cx.after, "@@", sub2), "@S", sub3)
 				evals++
 				p1, o1, e1 := c13Expand(withMacro)
 				p2, o2, e2 := c13Plain(byHand)
@@ -177,7 +187,7 @@ func TestVerifBoundedMacros(t *testing.T) {
 	}
 	_ = context.Background
 	fmt.Printf("BOUNDED evaluations=%d distinct=%d exhaustive=false bound=%q\n", evals, evals,
-		fmt.Sprintf("%d templates (0..3 parameters, each used 0..3 times) x %d argument tuples from a pool of %d expressions (calls with side effects, looser-binding operators, error calls) x %d contexts (top level, function, loop, two uses, operand position): ExpandMacros output printed, re-parsed and evaluated against the hand-substituted program", len(templates), len(argsPool), len(argsPool), len(contexts)))
+		fmt.Sprintf("%d templates (0..3 parameters, each used 0..3 times) x %d argument tuples from a pool of %d expressions (calls with side effects, looser-binding operators, error calls) x %d contexts (top level, function, loop, two and three uses incl. arguments of the same shape, operand position): ExpandMacros output printed, re-parsed and evaluated against the hand-substituted program", len(templates), len(argsPool), len(argsPool), len(contexts)))
 	if fails > 0 {
 		t.Fatalf("%d failures", fails)
 	}
